@@ -195,6 +195,13 @@ def prepare_pool(crate, n):
     os.makedirs(TARGET, exist_ok=True)
     os.makedirs(LOGS, exist_ok=True)
     sync_lock(crate)
+    for spec in sorted(glob.glob(os.path.join(crate_dir(crate), "*.slice"))):
+        out = os.path.join(crate_dir(crate), "gen_slices", os.path.basename(spec)[:-6] + ".rs")
+        os.makedirs(os.path.dirname(out), exist_ok=True)
+        p = subprocess.run([sys.executable, os.path.join(VERIF, "gen", "slice.py"), spec, out], stdout=subprocess.PIPE, stderr=subprocess.STDOUT, text=True)
+        if p.returncode != 0:
+            log(f"[prepare] crate {crate}: slicing failed (exit {p.returncode}): {p.stdout}")
+            return None
     lst = os.path.join(crate_dir(crate), "deasync.list")
     if os.path.exists(lst):
         files = [l.strip() for l in open(lst) if l.strip() and not l.startswith("#")]
